@@ -16,35 +16,10 @@ VAMM = "margined_vamm"
 ENG = "margined_engine"
 
 
-def run(ctx):
+def band_instances(ctx, rule):
+    """vAMM band check before every reserve write (shared by C15 R15.2 and C07 R07.6)"""
     ix = ctx.ix
     w = ctx.world
-    ctx.rule("R15.1", "SwapInput emitted on OpenPosition chains carries can_go_over_fluctuation = false", 3)
-    ctx.rule("R15.2", "vAMM band check precedes every reserve write; already-outside is unconditional and strict; would-leave skipped only under the flag", 3)
-    ctx.rule("R15.3", "ClosePosition's fluctuation query: direction follows the position, amount is the whole size", 2)
-    ctx.rule("R15.4", "partial vs whole close decision and partial amount formula", 2)
-    ctx.rule("R15.5", "reference snapshot choice; callers pass their Env unchanged", 3)
-
-    # ---------------------------------------------------------------- R15.1
-    chains = arms.engine_chains(ix, ENG)
-    seen = {}
-    for key, sts in chains.items():
-        if key.split(">")[0] != "OpenPosition":
-            continue
-        for st in sts:
-            for q in st.ok_paths():
-                for s in model.path_submsgs(ix, q):
-                    mv = ix.msg_variant(s.inner_msg())
-                    if not mv or mv[1] != "SwapInput":
-                        continue
-                    flag = mv[2].get("can_go_over_fluctuation")
-                    ok = flag is not None and tag(flag) == "bool" and payload(flag)[0] == 0
-                    k = "flag-false:%s:id%s" % (short_fn(st.fn), s.id_int())
-                    prev = seen.get(k)
-                    seen[k] = (ok and (prev[0] if prev else True), st, flag)
-    for k, (ok, st, flag) in sorted(seen.items()):
-        ctx.inst("R15.1", k, ok, st.fn.where(), "can_go_over_fluctuation = %s" % (sym.show(flag, 4) if flag is not None else "missing"))
-
     # ---------------------------------------------------------------- R15.2
     # the reserve writer: a vAMM function whose success paths write State reserves; its band check callee
     def vstate_write(e):
@@ -54,7 +29,7 @@ def run(ctx):
         try:
             a = arms.Arm(ix, VAMM, variant)
         except KeyError as e:
-            ctx.lost("R15.2", str(e))
+            ctx.lost(rule, str(e))
             continue
         # predicate: limit==0, or (already-outside tests false) and (flag or would-leave tests false)
         flag_const = {"v": False}
@@ -108,9 +83,45 @@ def run(ctx):
                     flag_const["v"] = False
             if not ok and not guards.path_satisfies(ix, q, band_pred, None):
                 bad = bad or q
-        ctx.inst("R15.2", "band-before-write:%s" % variant, bad is None and n > 0, a.fn.where(),
+        ctx.inst(rule, "band-before-write:%s" % variant, bad is None and n > 0, a.fn.where(),
                  "%d writing success paths; %s" % (n, "each reserve write is preceded by the strict already-outside tests and (flag or would-leave tests), or limit==0" if bad is None
                     else "a reserve write is not covered by the band check (or the check is not the strict/unconditional form)"))
+
+
+def run(ctx):
+    ix = ctx.ix
+    w = ctx.world
+    ctx.rule("R15.1", "SwapInput emitted on OpenPosition chains carries can_go_over_fluctuation = false", 3)
+    ctx.rule("R15.2", "vAMM band check precedes every reserve write; already-outside is unconditional and strict; would-leave skipped only under the flag", 3)
+    ctx.rule("R15.3", "ClosePosition's fluctuation query: direction follows the position, amount is the whole size", 2)
+    ctx.rule("R15.4", "partial vs whole close decision and partial amount formula", 2)
+    ctx.rule("R15.5", "reference snapshot choice; callers pass their Env unchanged", 3)
+
+    # ---------------------------------------------------------------- R15.1
+    chains = arms.engine_chains(ix, ENG)
+    seen = {}
+    for key, sts in chains.items():
+        if key.split(">")[0] != "OpenPosition":
+            continue
+        for st in sts:
+            for q in st.ok_paths():
+                for s in model.path_submsgs(ix, q):
+                    mv = ix.msg_variant(s.inner_msg())
+                    if not mv or mv[1] != "SwapInput":
+                        continue
+                    flag = mv[2].get("can_go_over_fluctuation")
+                    ok = flag is not None and tag(flag) == "bool" and payload(flag)[0] == 0
+                    k = "flag-false:%s:id%s" % (short_fn(st.fn), s.id_int())
+                    prev = seen.get(k)
+                    seen[k] = (ok and (prev[0] if prev else True), st, flag)
+    for k, (ok, st, flag) in sorted(seen.items()):
+        ctx.inst("R15.1", k, ok, st.fn.where(), "can_go_over_fluctuation = %s" % (sym.show(flag, 4) if flag is not None else "missing"))
+
+    band_instances(ctx, "R15.2")
+
+    def vstate_write(e):
+        may, _ = ix.event_effects(e)
+        return ("write", "margined_vamm:state") in may
     # flag plumbing: swap_output passes constant true, swap_input passes its message flag
     try:
         a = arms.Arm(ix, VAMM, "SwapInput")
